@@ -355,6 +355,79 @@ def scenario_sparse_wav(wrapper, base, work, free_slots):
     return {"before": {i: "staredit\\wav\\old %d.wav" % i for i in used}, "after": table, "new": ["staredit\\wav\\fresh_%d.wav" % k for k in range(2)]}
 
 
+def sound_table_of(wrapper, archive, work):
+    """the archive's sound table read from the scenario bytes themselves (WAV section: 512 string numbers; STR: offsets)"""
+    from richchk.model.mpq.stormlib.stormlib_archive_mode import StormLibArchiveMode
+
+    import refchk
+
+    out = os.path.join(work, "st_%d.chk" % len(os.listdir(work)))
+    h = wrapper.open_archive(archive, StormLibArchiveMode.STORMLIB_READ_ONLY)
+    try:
+        wrapper.extract_file(h, "staredit\\scenario.chk", out, overwrite_existing=True)
+    finally:
+        wrapper.close_archive(h)
+    data = open(out, "rb").read()
+    os.remove(out)
+    chunks = {n: p for n, _, p in refchk.split_chunks(data)}
+    wav, strs = chunks.get(b"WAV ", b""), chunks.get(b"STR ", b"")
+    table = {}
+    for i in range(len(wav) // 4):
+        sid = struct.unpack_from("<I", wav, 4 * i)[0]
+        if sid:
+            t = refchk.resolve_string(strs, 2, sid)
+            table[i] = t.decode("latin1") if t is not None else None
+    return table
+
+
+def scenario_mixed_batch(wrapper, base, work):
+    """import batches that mix sounds the map already lists with new ones, in the orders an author would meet: first
+    [a], then [a, b] (the listed one first), then [c, c, d] (one path twice), then [e, a] (the listed one last).  After
+    each import every file of the batch is a member with the file's bytes AND is listed in the map's sound table, and
+    what was listed before stays listed."""
+    from richchk.io.mpq.starcraft_audio_files_io import StarCraftAudioFilesIo
+    from richchk.model.mpq.stormlib.stormlib_archive_mode import StormLibArchiveMode
+
+    snd = {}
+    for k, name in enumerate("abcde"):
+        snd[name] = os.path.join(work, "mix_%s.wav" % name)
+        make_wav(snd[name], 200 + 37 * k)
+    steps = [["a"], ["a", "b"], ["c", "c", "d"], ["e", "a"]]
+    cur = base
+    log = []
+    listed_before = set(v for v in sound_table_of(wrapper, cur, work).values() if v)
+    for n, batch in enumerate(steps):
+        nxt = os.path.join(work, "mix_%d.scx" % n)
+        try:
+            StarCraftAudioFilesIo(wrapper).add_audio_files_to_mpq([snd[x] for x in batch], cur, nxt)
+        except Exception as ex:  # noqa: BLE001
+            log.append({"step": batch, "error": type(ex).__name__ + ": " + str(ex)[:120]})
+            break
+        table = sound_table_of(wrapper, nxt, work)
+        listed = set(v for v in table.values() if v)
+        want = ["staredit\\wav\\" + os.path.basename(snd[x]) for x in batch]
+        missing_members = []
+        h = wrapper.open_archive(nxt, StormLibArchiveMode.STORMLIB_READ_ONLY)
+        try:
+            for x, member in zip(batch, want):
+                o = os.path.join(work, "mx_member.bin")
+                try:
+                    wrapper.extract_file(h, member, o, overwrite_existing=True)
+                    same = open(o, "rb").read() == open(snd[x], "rb").read()
+                    os.remove(o)
+                except Exception:  # noqa: BLE001
+                    same = False
+                if not same:
+                    missing_members.append(member)
+        finally:
+            wrapper.close_archive(h)
+        log.append({"step": batch, "not_listed": sorted(set(want) - listed), "not_stored": sorted(set(missing_members)),
+                    "dropped_from_table": sorted(listed_before - listed), "error": None})
+        listed_before = listed
+        cur = nxt
+    return {"steps": log}
+
+
 def main():
     spec = json.loads(sys.argv[1])
     work = tempfile.mkdtemp(prefix="vfo_")
@@ -492,6 +565,8 @@ def main():
                 res["scenario"] = scenario_custom_folder(wrapper, base, work)
             elif op == "scenario_ogg_only":
                 res["scenario"] = scenario_ogg_only(wrapper, base, work, spec["ogg"])
+            elif op == "scenario_mixed_batch":
+                res["scenario"] = scenario_mixed_batch(wrapper, base, work)
             elif op == "scenario_sparse_wav":
                 res["scenario"] = scenario_sparse_wav(wrapper, base, work, spec.get("free_slots", [0]))
         except BaseException as ex:  # noqa: BLE001
